@@ -143,7 +143,7 @@ func (p *Peer) NM() *PFeat { return p.Ents[0].Feats[0] }
 //
 //go:norace
 func (p *Peer) Connect() {
-	p.Conn = p.Node.Connect(p.Name, p.onWrite)
+	p.Node.Connect(p.Name, p.onWrite, func(c *Conn) { p.Conn = c })
 }
 
 //go:norace
